@@ -315,6 +315,12 @@ func (ex *Exchange[H]) GetRangeByHeight(
 		),
 	)
 	defer span.End()
+	// there must be at least one header to request: `from`+1 < `to`
+	if to <= from.Height()+1 {
+		err := fmt.Errorf("%w: from %d, to %d", header.ErrRangeMixUp, from.Height(), to)
+		span.SetStatus(codes.Error, err.Error())
+		return nil, err
+	}
 	session := newSession[H](
 		ex.ctx,
 		ex.host,
